@@ -262,6 +262,55 @@ func genValidPatterns(r *rand.Rand, max int) []string {
 	}
 }
 
+// genMatching generates a pattern that matches the given path with high
+// probability (so that lists of them exercise last-match-wins and the skip
+// rules), with random polarity.
+func genMatching(r *rand.Rand, path string, dir bool) string {
+	parts := strings.Split(path, "/")
+	base := parts[len(parts)-1]
+	var p string
+	switch r.Intn(12) {
+	case 0:
+		p = base
+	case 1:
+		p = "*"
+	case 2:
+		p = "/" + path
+	case 3:
+		p = "**/" + base
+	case 4:
+		p = base[:1] + "*"
+	case 5:
+		p = parts[0] + "/**"
+	case 6:
+		p = "/" + strings.Join(parts[:len(parts)-1], "/") + "/*"
+		if len(parts) == 1 {
+			p = "/*"
+		}
+	case 7:
+		p = "**"
+		if len(parts) > 1 {
+			p = "**/" + parts[len(parts)-2] + "/**"
+		}
+	case 8:
+		p = "?" + base[1:]
+	case 9:
+		p = base
+		if dir {
+			p += "/"
+		}
+	default:
+		return genPattern(r)
+	}
+	if !inGrammar(p) {
+		return genPattern(r)
+	}
+	if r.Intn(5) < 2 {
+		p = "!" + p
+	}
+	return p
+}
+
 func genPath(r *rand.Rand) string {
 	n := 1 + r.Intn(3)
 	if r.Intn(10) == 0 {
@@ -391,8 +440,16 @@ func main() {
 	for i := 0; i < 400*scale; i++ {
 		add(Case{K: "parse", Pat: genPattern(r)}, "random")
 	}
-	for i := 0; i < 1600*scale; i++ {
+	for i := 0; i < 1000*scale; i++ {
 		add(Case{K: "ignore", Raws: genPatterns(r, 6), Path: genPath(r), Dir: r.Intn(2) == 0, Vcs: r.Intn(4) == 0}, "random")
+	}
+	for i := 0; i < 1000*scale; i++ {
+		path, dir := genPath(r), r.Intn(2) == 0
+		raws := make([]string, 2+r.Intn(6))
+		for j := range raws {
+			raws[j] = genMatching(r, path, dir)
+		}
+		add(Case{K: "ignore", Raws: raws, Path: path, Dir: dir, Vcs: r.Intn(8) == 0}, "random")
 	}
 	for t := 0; t < 40*scale; t++ {
 		tree := igntree.Random(r, 4, 4, igntree.Names)
